@@ -24,7 +24,7 @@ LEVEL_NOTE = ("domain = conflict-free sets with distinct priorities (ties are ob
 RULE = ("random system bounds/zone x 1-5 proposals with distinct priorities biased to compatible bounds; probes at "
         "each end of the reported bounds +-1 W, zone edges +-1 W and 0. distinct = canonical case JSON; non-trivial = "
         "conflict-free and (>=2 proposals with a preference or a bounds-narrowing higher-priority proposal)")
-REQUIRED_BUCKETS = ["conflict-free-set", "zone-present", "no-zone", "narrowed-by-higher-priority",
+REQUIRED_BUCKETS = ["pool-handle-tier(proposals as BatteryPool.propose_* builds them)", "conflict-free-set", "zone-present", "no-zone", "narrowed-by-higher-priority",
                     "probe-adopted", "probe-rejected", "probe-in-zone", "null-proposal-added", "two-candidates",
                     "update-prefers-the-previous-target", "second-component-set-evaluated-last",
                     "same-source-id-at-two-priorities"]
@@ -40,6 +40,12 @@ def budget(tier: str) -> dict[str, Any]:
 
 
 def gen(rng: Any, tier: str, i: int) -> Any:
+    if rng.random() < 0.03:
+        # the proposals as the pools build them (BatteryPool.propose_power / propose_charge / propose_discharge): the
+        # bounds a pool method puts into a proposal decide what lower-priority actors may still do (C03's driver/oracle)
+        from . import c03
+
+        return c03._gen_handles(rng)  # noqa: SLF001
     sys, excl = pm.gen_sys(rng)
     n = rng.choice([1, 2, 2, 3, 3, 4, 5])
     props = pm.gen_props(rng, n, distinct_prio=rng.random() < 0.9, compat_bias=0.95)
@@ -61,6 +67,11 @@ def _tgt(m: Any, sb: Any) -> float | None:
 
 
 def check(case: dict[str, Any], rec: Any) -> None:
+    if case.get("kind") == "pool-handles":
+        from . import c03
+
+        c03._check_handles(case, rec)  # noqa: SLF001
+        return
     sys, excl, props = case["sys"], case["excl"], case["props"]
     sl, su = sys
     el, eu = excl
